@@ -11,9 +11,9 @@
    checked by correspondence (pretty-printing generated ASTs under all spellings/layouts and comparing the parser's
    ASTs and the verdicts; tools/gv/props/c14.py). *)
 From GV.Model Require Import Ast Spec.
-From GV.Model Require Import Lex ValueParse QueryParse OpParse ClauseParse CnfParse FilterParse ClauseFParse CnfFParse LetParse.
+From GV.Model Require Import Lex ValueParse QueryParse OpParse ClauseParse CnfParse FilterParse ClauseFParse CnfFParse LetParse CallParse.
 From GV.Proofs Require Import LexProps ValueParseProps ValueSpellProps ValueSpellExample.
-From GV.Proofs Require Import QueryParseProps QuerySpellProps QuerySpellExample ThisProps OpParseProps ClauseParseProps ClauseSpellProps ClauseSpellExample CnfParseProps OpSoundProps ClauseFuelProps CnfSpellProps CnfSpellExample FilterParseProps ClauseFProps CnfFProps LetParseProps.
+From GV.Proofs Require Import QueryParseProps QuerySpellProps QuerySpellExample ThisProps OpParseProps ClauseParseProps ClauseSpellProps ClauseSpellExample CnfParseProps OpSoundProps ClauseFuelProps CnfSpellProps CnfSpellExample FilterParseProps ClauseFProps CnfFProps LetParseProps CallParseProps.
 
 Theorem C14_keyword_tables_are_the_documented_ones :
   set_eqb kw_in_keyword ["in"; "IN"] = true /\ set_eqb kw_keys ["keys"; "KEYS"] = true /\
@@ -346,3 +346,17 @@ Theorem C14_assignment_of_a_variable_query_parses : forall rv w1 name w2 eq w3 v
   POk (mkPL name (LVQuery (embed (qdenote (mkCQ None (CVar v) ps))))) rest.
 Proof. exact let_query_spelling_parses. Qed.
 Print Assumptions C14_assignment_of_a_variable_query_parses.
+
+(* ---- function calls (Model/CallParse.v = parser.rs let_value / call_expr / function_expr) ---- *)
+
+(* something is read as a call only for a built-in function name with exactly the number of arguments that function expects *)
+Theorem C14_only_known_functions_are_calls : forall rv n s f args r, let_value rv n s = POk (PVCall f args) r ->
+  exists name k, assoc name fn_table = Some (f, k) /\ List.length args = k.
+Proof. exact let_value_calls_are_known. Qed.
+Print Assumptions C14_only_known_functions_are_calls.
+
+Theorem C14_function_table : map (fun p => (fst p, snd (snd p))) fn_table =
+  [("count", 1); ("join", 2); ("json_parse", 1); ("now", 0); ("parse_boolean", 1); ("parse_char", 1); ("parse_epoch", 1); ("parse_float", 1);
+   ("parse_int", 1); ("parse_string", 1); ("regex_replace", 3); ("substring", 3); ("to_lower", 1); ("to_upper", 1); ("url_decode", 1)]%nat.
+Proof. exact function_table. Qed.
+Print Assumptions C14_function_table.
